@@ -8,7 +8,7 @@ reservoir's random() as an enumerated choice (reservoir size set to 3 so replace
 """
 import itertools
 
-from .. import explore, vloop, world
+from .. import explore, vloop, world  # noqa
 from ..report import Report
 
 PROP = 'C18'
@@ -179,6 +179,68 @@ def run_streams(first_vals, length, values):
   return {'n': n, 'keys': len(outcomes), 'viol': viol, 'sample': sample}
 
 
+def run_aging(n_streams):
+  """A series that keeps receiving samples must keep reporting percentiles from its retained samples however old its
+  first samples are: fill the reservoir (size 3), let the low-resolution clock pass MAX_AGG_AGE, keep sampling (every
+  outcome of the reservoir coin), aggregate."""
+  from scales.varz import VarzReceiver, VarzAggregator
+  import scales.varz as varz
+  V = varz_cls()
+  old = VarzReceiver._MAX_PERCENTILE_SIZE
+  VarzReceiver._MAX_PERCENTILE_SIZE = 3
+  viol = []
+  n = 0
+  lp = vloop.loop()
+  try:
+    for pre in ([1, 5, 9], [5, 5, 9, 1], [9, 1, 5, 5, 1]):
+      for post in ([5], [9, 1], [1, 5, 9]):
+        stack = [[]]
+        while stack:
+          pfx = stack.pop()
+          world.reset()
+          VarzReceiver.VARZ_DATA.clear()
+          ch = world.Chooser(pfx)
+          world.set_chooser(ch)
+          src = ('method-x', 'service-x', 'host-x:1', None)
+          for v in pre:
+            V.t(fresh(src), v)
+          # let 301 s of virtual time pass (the low-resolution clock ticks once a second)
+          target = lp.now() + varz.VarzAggregator.MAX_AGG_AGE + 1.5
+          while True:
+            vloop.run_ready()
+            t = lp.next_timer()
+            if t is None or t.at > target:
+              break
+            lp.fire(t)
+          lp.advance_to(target)
+          vloop.run_ready()
+          n_pre = len(ch.points)
+          for v in post:
+            V.t(fresh(src), v)
+          world.set_chooser(None)
+          for i in range(len(pfx), len(ch.points)):
+            for alt in range(1, len(ch.points[i].labels)):
+              stack.append(ch.choices[:i] + [alt])
+          n += 1
+          res = VarzReceiver.VARZ_DATA['verif.c18.t']
+          retained = list(list(res.values())[0].data)
+          agg = VarzAggregator.Aggregate(VarzReceiver.VARZ_DATA, VarzReceiver.VARZ_METRICS)
+          a = agg['verif.c18.t'].get(('service-x', None))
+          pcts = a.total[1:] if a is not None else None
+          ok = pcts is not None and all(min(retained) - 1e-9 <= p <= max(retained) + 1e-9 for p in pcts)
+          # if the reservoir coin rejected every late sample the series has not changed for MAX_AGG_AGE and may be aged out
+          # (the statement does not speak about ageing); once a late sample was retained the series is current
+          accepted_late = any(lbl.endswith('random=low') for lbl in ch.trace()[n_pre:])
+          if not ok and accepted_late:
+            viol.append({'clause': 'C18.percentile', 'message': 'series sampled %r, then (after %d s) %r retains %r but reports percentiles %r'
+                         % (pre, varz.VarzAggregator.MAX_AGG_AGE + 1, post, retained, pcts), 'sig': {'aging': True}})
+            return {'n': n, 'keys': n, 'viol': viol, 'sample': None}
+  finally:
+    VarzReceiver._MAX_PERCENTILE_SIZE = old
+    world.set_chooser(None)
+  return {'n': n, 'keys': n, 'viol': viol, 'sample': {'aging': 'reservoir refreshed across MAX_AGG_AGE', 'runs': n}}
+
+
 def run_e2e(stack, ncalls):
   """End to end: the real client built by the public builder, 2 endpoints, ncalls calls; the dispatcher constructs a fresh
   Source for every reply.  Series per dispatcher metric are bounded by the distinct (method, service, endpoint) tuples and the
@@ -246,6 +308,13 @@ def main(tier, seed):
       if o['sample']:
         rep.sample(o['sample'])
     rep.part('sample streams', engine='E', max_length=SL, values=values, reservoir_size=3, executions=n2)
+    out = explore.pmap('vt.checks.c18', 'run_aging', [(1,)], pool, seed)
+    for o in out:
+      rep.add('evaluations', o['n'])
+      rep.add_violations(o['viol'])
+      if o['sample']:
+        rep.sample(o['sample'])
+    rep.part('busy series across MAX_AGG_AGE', engine='E', runs=sum(o['n'] for o in out))
     out = explore.pmap('vt.checks.c18', 'run_e2e', [('thrift', 12), ('mux', 12), ('thrift', 40 if tier == 'thorough' else 20)], pool, seed)
     for o in out:
       rep.add('evaluations', o['n'])
